@@ -473,11 +473,15 @@ func c14One(c *ev.Ctx, cs ev.Case, pool []c14Payload, lwOK bool) {
 		}
 	}
 	cs.Desc = fmt.Sprintf("%v", h.Ops)
-	// D11 (known finding): a non-animated output whose canvas (explicit, or implied by a frame offset)
-	// differs from the image size. Only its direct consequences carry this tag.
+	// D11 (repaired): a single frame whose canvas (explicit, or implied by a frame offset) differs from the image size
+	// cannot be a still - the still layouts have no frame rectangle, and a VP8X canvas that differs from the image is
+	// invalid. The only file that "demuxes back to the same offsets and canvas size" is a one-frame animation, so that
+	// is what the model expects. The tag stays on the direct consequences: a tree without the repair shows them, and
+	// the known-findings file no longer lists them.
 	d11 := ""
 	if !animated && len(h.Frames) == 1 && (wantW != h.Frames[0].P.W || wantH != h.Frames[0].P.H) && !expectReject {
 		d11 = "1"
+		animated = true
 	}
 	kinds := ""
 	for _, f := range h.Frames {
